@@ -706,7 +706,7 @@ func c09Graphs(c *Ctx) error {
 				levels := make([]int, len(num.gates))
 				vis := make([]bool, len(num.gates))
 				for k, g := range num.gates {
-					levels[k] = g.Level
+					levels[k] = int(g.Level) // independent of the field's integer type
 					vis[k] = g.Visited
 				}
 				// circuit.AssignLevels on the compiled circuit (Gate.Level of every flat gate)
@@ -1060,14 +1060,191 @@ func c09Progs(c *Ctx) error {
 	return nil
 }
 
+// ---------------------------------------------------------------- deep chains
+
+// c09Deep builds, directly through circuits.Compiler, dependent chains whose BFS
+// depth is around and beyond 65536 levels and compiles them for both targets.
+// Gate.Level is consumed only by the GMW stable sort of Compile: the sort key must
+// preserve the order of the levels however deep the circuit is, otherwise gates
+// are emitted before their producers.  Oracle: the emitted gate list is
+// topologically ordered, and Compute(GMW) == Compute(Yao) == the chain's own
+// meaning on all inputs.  (The model's level is an unbounded nat; these graphs
+// are too large for the model and are covered by the oracle only.)
+type c09DeepReplay struct {
+	Seed      uint64 `json:"seed"`
+	Gates     int    `json:"chain_gates"`
+	MaxLevel  int    `json:"max_bfs_level"`
+	Target    string `json:"target"`
+	ChainSeed uint64 `json:"chain_seed"`
+	BadGate   int    `json:"first_gate_read_before_written,omitempty"`
+	BadWire   int    `json:"wire_read_before_written,omitempty"`
+	X         string `json:"x,omitempty"`
+	Got       string `json:"got,omitempty"`
+	Want      string `json:"want,omitempty"`
+	Panic     string `json:"panic,omitempty"`
+}
+
+// chain step k: w[k+1] = op_k(w[k], in[sel_k]); op/sel derive from chainSeed.
+func c09DeepStep(chainSeed uint64, k int) (circuit.Operation, int) {
+	h := fnv64(fmt.Sprintf("%d:%d", chainSeed, k))
+	sel := int(h>>8) % 3
+	switch h % 8 {
+	case 0:
+		return circuit.AND, sel
+	case 1:
+		return circuit.OR, sel
+	case 2:
+		return circuit.XNOR, sel
+	default:
+		return circuit.XOR, sel
+	}
+}
+
+func c09DeepBuild(n int, chainSeed uint64, tgt utils.Target) (*circuit.Circuit, string) {
+	var circ *circuit.Circuit
+	msg := c09Try(func() {
+		params := utils.NewParams()
+		params.Target = tgt
+		calloc := circuits.NewAllocator()
+		const ni = 4
+		ins := make([]*circuits.Wire, ni)
+		for i := range ins {
+			ins[i] = calloc.Wire()
+		}
+		cc, err := circuits.NewCompiler(params, calloc,
+			circuit.IO{{Name: "x", Type: uintInfo(ni)}}, circuit.IO{{Name: "r", Type: uintInfo(1)}},
+			append([]*circuits.Wire(nil), ins...), nil)
+		if err != nil {
+			panic(err)
+		}
+		w := ins[3]
+		for k := 0; k < n; k++ {
+			op, sel := c09DeepStep(chainSeed, k)
+			o := calloc.Wire()
+			cc.AddGate(calloc.BinaryGate(op, w, ins[sel], o))
+			w = o
+		}
+		w.SetOutput(true)
+		cc.OutputWires = append(cc.OutputWires, w)
+		circ = cc.Compile()
+	})
+	return circ, msg
+}
+
+func c09DeepRef(n int, chainSeed uint64, x []bool) bool {
+	w := x[3]
+	for k := 0; k < n; k++ {
+		op, sel := c09DeepStep(chainSeed, k)
+		b := x[sel]
+		switch op {
+		case circuit.AND:
+			w = w && b
+		case circuit.OR:
+			w = w || b
+		case circuit.XNOR:
+			w = w == b
+		default:
+			w = w != b
+		}
+	}
+	return w
+}
+
+func c09Deep(c *Ctx) error {
+	r := c.rng.Fork()
+	sizes := []int{65535, 65536, 65537, 65538, 70000}
+	if c.Thorough() {
+		sizes = append(sizes, 131073, 140000, 65536+r.Range(2, 5000))
+	}
+	const ni = 4
+	for _, n := range sizes {
+		chainSeed := r.U64()
+		c.Hist(fmt.Sprintf("deep:max-bfs-level:%d", n-1))
+		outs := map[utils.Target][]string{}
+		for _, tgt := range []utils.Target{utils.TargetYao, utils.TargetGMW} {
+			key := "c09:gmw-level-sort:depth>=65536"
+			if n-1 < 65536 {
+				key = "c09:gmw-level-sort:depth<65536"
+			}
+			if tgt == utils.TargetYao {
+				key = strings.Replace(key, "gmw-level-sort", "yao-deep-chain", 1)
+			}
+			rp := c09DeepReplay{Seed: c.Seed, Gates: n, MaxLevel: n - 1, Target: tgt.String(), ChainSeed: chainSeed}
+			circ, msg := c09DeepBuild(n, chainSeed, tgt)
+			c.Eval(fmt.Sprintf("deep|%d|%d|%s", n, chainSeed, tgt), true)
+			if msg != "" {
+				rp.Panic = msg
+				c.Fail(key+":panic", "Compile panics on a deep dependent chain", rp)
+				continue
+			}
+			// topological order of the emitted gate list
+			written := make([]bool, circ.NumWires)
+			for i := 0; i < ni; i++ {
+				written[i] = true
+			}
+			bad := -1
+			badWire := -1
+			for gi, g := range circ.Gates {
+				if !written[g.Input0] {
+					bad, badWire = gi, int(g.Input0)
+				} else if g.Op != circuit.INV && !written[g.Input1] {
+					bad, badWire = gi, int(g.Input1)
+				}
+				if bad >= 0 {
+					break
+				}
+				written[g.Output] = true
+			}
+			if bad >= 0 {
+				rp.BadGate, rp.BadWire = bad, badWire
+				c.Fail(key+":not-topological",
+					fmt.Sprintf("Compile (%s) emits gate %d before the gate that writes its input wire %d: the level sort key does not preserve the order of BFS levels for a chain of %d dependent gates", tgt, bad, badWire, n), rp)
+			}
+			var res []string
+			for v := 0; v < 1<<ni; v++ {
+				x := make([]bool, ni)
+				for b := 0; b < ni; b++ {
+					x[b] = v>>uint(b)&1 == 1
+				}
+				want := bitsString([]bool{c09DeepRef(n, chainSeed, x)})
+				got := ""
+				m := c09Try(func() {
+					out, err := circ.Compute(SplitInputs(circ, x))
+					if err != nil {
+						panic(err)
+					}
+					got = bitsString(JoinOutputs(circ, out))
+				})
+				res = append(res, got)
+				if m != "" || got != want {
+					rp2 := rp
+					rp2.X, rp2.Got, rp2.Want, rp2.Panic = bitsString(x), got, want, m
+					c.Fail(key+":output-differs",
+						fmt.Sprintf("the %s circuit of a chain of %d dependent gates computes %s, the chain means %s", tgt, n, got, want), rp2)
+					break
+				}
+			}
+			outs[tgt] = res
+		}
+		if strings.Join(outs[utils.TargetYao], ",") != strings.Join(outs[utils.TargetGMW], ",") {
+			c.Hist("deep:yao-vs-gmw-differ")
+		}
+	}
+	return nil
+}
+
 func runC09(c *Ctx) error {
 	t0 := time.Now()
 	if err := c09Graphs(c); err != nil {
 		return err
 	}
 	t1 := time.Now()
+	if err := c09Deep(c); err != nil {
+		return err
+	}
+	t2 := time.Now()
 	err := c09Progs(c)
-	c.Note("graphs %.1fs, programs %.1fs", t1.Sub(t0).Seconds(), time.Since(t1).Seconds())
+	c.Note("graphs %.1fs, deep chains %.1fs, programs %.1fs", t1.Sub(t0).Seconds(), t2.Sub(t1).Seconds(), time.Since(t2).Seconds())
 	return err
 }
 
